@@ -550,6 +550,7 @@ def run(ctx):
     F = ctx.F
     trusted_rows = check_sites(ctx, F)
     c13.check_precision_changers(ctx, F)
+    c19.check_inferred_probability(ctx, F)
     check_strict_producers(ctx, F)
     n_cursor_unsafe = sum(1 for s in unsafe_sites(F) if s['body'].file.endswith('backends.rs'))
     check_mut_escape(ctx, F, n_cursor_unsafe)
